@@ -13,8 +13,8 @@ def run(c):
     c.lean(MODULES, THEOREMS, sources=SOURCES)
     model, scs = cj.setup(c)
     rng = c.rng
-    per = 12 if c.thorough else 4
-    cap = 60 if c.thorough else 40
+    per = 8 if c.thorough else 4
+    cap = 50 if c.thorough else 40
     for sc in scs:
         items = cc.link_items(sc)
         g = cj.GenJ(sc, rng.fork(), big=False)
